@@ -57,19 +57,42 @@ fn family(f: Fam) -> Family {
 
 fn prefix(f: Fam, i: usize) -> packet::Nlri {
     match f {
-        Fam::V4 => packet::Nlri::V4(bgp::Ipv4Net { addr: Ipv4Addr::new(10, i as u8, 0, 0), mask: 16 }),
-        Fam::V6 => packet::Nlri::V6(bgp::Ipv6Net { addr: Ipv6Addr::new(0x2001, 0xdb8, i as u16, 0, 0, 0, 0, 0), mask: 48 }),
+        Fam::V4 => packet::Nlri::V4(bgp::Ipv4Net {
+            addr: Ipv4Addr::new(10, i as u8, 0, 0),
+            mask: 16,
+        }),
+        Fam::V6 => packet::Nlri::V6(bgp::Ipv6Net {
+            addr: Ipv6Addr::new(0x2001, 0xdb8, i as u16, 0, 0, 0, 0, 0),
+            mask: 48,
+        }),
         Fam::Vpn4 => packet::Nlri::VpnV4(packet::vpn::VpnV4Nlri {
-            labels: packet::mpls::MplsLabelStack::new(vec![packet::mpls::MplsLabel::new(1000 + i as u32)]),
-            rd: packet::rd::RouteDistinguisher::TwoOctetAs { admin: 65000, assigned: 1 },
-            prefix: bgp::Ipv4Net { addr: Ipv4Addr::new(172, 16, i as u8, 0), mask: 24 },
+            labels: packet::mpls::MplsLabelStack::new(vec![packet::mpls::MplsLabel::new(
+                1000 + i as u32,
+            )]),
+            rd: packet::rd::RouteDistinguisher::TwoOctetAs {
+                admin: 65000,
+                assigned: 1,
+            },
+            prefix: bgp::Ipv4Net {
+                addr: Ipv4Addr::new(172, 16, i as u8, 0),
+                mask: 24,
+            },
         }),
     }
 }
 
 fn nexthop(f: Fam, i: usize) -> bgp::Nexthop {
     match f {
-        Fam::V6 => bgp::Nexthop::V6(Ipv6Addr::new(0x2001, 0xdb8, 0xffff, 0, 0, 0, 0, 1 + i as u16)),
+        Fam::V6 => bgp::Nexthop::V6(Ipv6Addr::new(
+            0x2001,
+            0xdb8,
+            0xffff,
+            0,
+            0,
+            0,
+            0,
+            1 + i as u16,
+        )),
         _ => bgp::Nexthop::V4(Ipv4Addr::new(192, 0, 2, 101 + i as u8)),
     }
 }
@@ -98,21 +121,52 @@ fn attr_pool() -> Vec<Arc<Vec<Attribute>>> {
         Arc::new(vec![origin(0), as_path(&[64900]), ext(&[rt(1)])]),
         Arc::new(vec![origin(0), as_path(&[64901]), med(5), ext(&[rt(1)])]), // ties with 0 (MED not compared)
         Arc::new(vec![origin(0), as_path(&[64902]), lp(200), ext(&[rt(2)])]),
-        Arc::new(vec![origin(0), as_path(&[64900, 64903]), ext(&[rt(1), rt(2)])]),
+        Arc::new(vec![
+            origin(0),
+            as_path(&[64900, 64903]),
+            ext(&[rt(1), rt(2)]),
+        ]),
         Arc::new(vec![origin(1), as_path(&[64904]), ext(&[rt(3)])]),
     ]
 }
 
 #[derive(Clone, Debug)]
 enum Op {
-    Announce { peer: usize, fam: Fam, pfx: usize, pid: u32, attr: usize, nh: usize },
-    Withdraw { peer: usize, fam: Fam, pfx: usize, pid: u32 },
-    PeerDown { peer: usize },
-    GrDown { peer: usize },
-    GrUp { peer: usize },
-    StalePurge { peer: usize },
-    NhReport { fam: Fam, nh: usize, reachable: bool },
-    ImportPolicy { idx: usize, peer: usize },
+    Announce {
+        peer: usize,
+        fam: Fam,
+        pfx: usize,
+        pid: u32,
+        attr: usize,
+        nh: usize,
+    },
+    Withdraw {
+        peer: usize,
+        fam: Fam,
+        pfx: usize,
+        pid: u32,
+    },
+    PeerDown {
+        peer: usize,
+    },
+    GrDown {
+        peer: usize,
+    },
+    GrUp {
+        peer: usize,
+    },
+    StalePurge {
+        peer: usize,
+    },
+    NhReport {
+        fam: Fam,
+        nh: usize,
+        reachable: bool,
+    },
+    ImportPolicy {
+        idx: usize,
+        peer: usize,
+    },
 }
 
 impl Op {
@@ -146,19 +200,39 @@ fn gen_ops(rng: &mut Rng, n: usize) -> Vec<Op> {
                     nh: rng.usize(3),
                 }
             } else if k < 65 {
-                Op::Withdraw { peer: rng.usize(N_PEERS), fam, pfx: rng.usize(N_PFX), pid: rng.below(2) as u32 }
+                Op::Withdraw {
+                    peer: rng.usize(N_PEERS),
+                    fam,
+                    pfx: rng.usize(N_PFX),
+                    pid: rng.below(2) as u32,
+                }
             } else if k < 77 {
-                Op::NhReport { fam, nh: rng.usize(3), reachable: rng.chance(1, 2) }
+                Op::NhReport {
+                    fam,
+                    nh: rng.usize(3),
+                    reachable: rng.chance(1, 2),
+                }
             } else if k < 82 {
-                Op::PeerDown { peer: rng.usize(N_PEERS) }
+                Op::PeerDown {
+                    peer: rng.usize(N_PEERS),
+                }
             } else if k < 87 {
-                Op::GrDown { peer: rng.usize(N_PEERS) }
+                Op::GrDown {
+                    peer: rng.usize(N_PEERS),
+                }
             } else if k < 91 {
-                Op::GrUp { peer: rng.usize(N_PEERS) }
+                Op::GrUp {
+                    peer: rng.usize(N_PEERS),
+                }
             } else if k < 95 {
-                Op::StalePurge { peer: rng.usize(N_PEERS) }
+                Op::StalePurge {
+                    peer: rng.usize(N_PEERS),
+                }
             } else {
-                Op::ImportPolicy { idx: rng.usize(3), peer: rng.usize(N_PEERS) }
+                Op::ImportPolicy {
+                    idx: rng.usize(3),
+                    peer: rng.usize(N_PEERS),
+                }
             }
         })
         .collect()
@@ -189,7 +263,11 @@ struct World {
 
 fn new_sources(i: usize) -> BTreeMap<Fam, Arc<table::Source>> {
     // the daemon creates one Source per session and family
-    let role = if i == 2 { table::PeerRole::Ibgp } else { table::PeerRole::Ebgp };
+    let role = if i == 2 {
+        table::PeerRole::Ibgp
+    } else {
+        table::PeerRole::Ebgp
+    };
     let asn = if i == 2 { LOCAL_ASN } else { 65001 + i as u32 };
     [Fam::V4, Fam::V6, Fam::Vpn4]
         .into_iter()
@@ -216,30 +294,64 @@ fn import_policies() -> Vec<Option<Arc<table::PolicyAssignment>>> {
         pt.add_defined_set(table::DefinedSetConfig::Prefix {
             name: "ps".into(),
             prefixes: vec![
-                table::PrefixConfig { ip_prefix: "10.1.0.0/16".into(), mask_length_min: 16, mask_length_max: 16 },
-                table::PrefixConfig { ip_prefix: "10.2.0.0/16".into(), mask_length_min: 16, mask_length_max: 16 },
+                table::PrefixConfig {
+                    ip_prefix: "10.1.0.0/16".into(),
+                    mask_length_min: 16,
+                    mask_length_max: 16,
+                },
+                table::PrefixConfig {
+                    ip_prefix: "10.2.0.0/16".into(),
+                    mask_length_min: 16,
+                    mask_length_max: 16,
+                },
             ],
         })
         .unwrap();
         pt.add_statement(
             "rej",
-            vec![table::ConditionConfig::PrefixSet("ps".into(), table::MatchOption::Any)],
+            vec![table::ConditionConfig::PrefixSet(
+                "ps".into(),
+                table::MatchOption::Any,
+            )],
             Some(table::Disposition::Reject),
             table::Actions::default(),
         )
         .unwrap();
         pt.add_policy("p", vec!["rej".into()]).unwrap();
         out.push(Some(
-            pt.build_assignment(None, "i", table::PolicyDirection::Import, table::Disposition::Accept, vec!["p".into()]).unwrap(),
+            pt.build_assignment(
+                None,
+                "i",
+                table::PolicyDirection::Import,
+                table::Disposition::Accept,
+                vec!["p".into()],
+            )
+            .unwrap(),
         ));
     }
     {
         let mut pt = table::PolicyTable::new();
-        let actions = table::Actions { local_pref: Some(table::LocalPrefAction { value: 300 }), ..Default::default() };
-        pt.add_statement("lp", vec![table::ConditionConfig::Origin(1)], Some(table::Disposition::Accept), actions).unwrap();
+        let actions = table::Actions {
+            local_pref: Some(table::LocalPrefAction { value: 300 }),
+            ..Default::default()
+        };
+        pt.add_statement(
+            "lp",
+            vec![table::ConditionConfig::Origin(1)],
+            Some(table::Disposition::Accept),
+            actions,
+        )
+        .unwrap();
         pt.add_policy("p", vec!["lp".into()]).unwrap();
         out.push(Some(
-            pt.build_assignment(None, "i", table::PolicyDirection::Import, table::Disposition::Accept, vec!["p".into()]).unwrap(),
+            pt.build_assignment(
+                None,
+                "i",
+                table::PolicyDirection::Import,
+                table::Disposition::Accept,
+                vec!["p".into()],
+            )
+            .unwrap(),
         ));
     }
     out
@@ -271,7 +383,10 @@ impl World {
                 w.tables
                     .add_vrf(
                         format!("vrf{}", id),
-                        packet::rd::RouteDistinguisher::TwoOctetAs { admin: 65000, assigned: *id },
+                        packet::rd::RouteDistinguisher::TwoOctetAs {
+                            admin: 65000,
+                            assigned: *id,
+                        },
                         hs,
                         vec![rt(1 + k as u16)],
                         *id,
@@ -287,14 +402,24 @@ impl World {
     fn apply(&mut self, op: &Op) -> bool {
         self.ts += 1;
         match *op {
-            Op::Announce { peer, fam, pfx, pid, attr, nh } => {
+            Op::Announce {
+                peer,
+                fam,
+                pfx,
+                pid,
+                attr,
+                nh,
+            } => {
                 if self.st[peer] == PeerSt::GrDown {
                     return false;
                 }
                 self.tables.insert_route(
                     self.sources[peer][&fam].clone(),
                     family(fam),
-                    packet::PathNlri { path_id: pid, nlri: prefix(fam, pfx) },
+                    packet::PathNlri {
+                        path_id: pid,
+                        nlri: prefix(fam, pfx),
+                    },
                     Some(nexthop(fam, nh)),
                     self.attrs[attr].clone(),
                     None,
@@ -302,22 +427,33 @@ impl World {
                 );
                 true
             }
-            Op::Withdraw { peer, fam, pfx, pid } => {
+            Op::Withdraw {
+                peer,
+                fam,
+                pfx,
+                pid,
+            } => {
                 if self.st[peer] == PeerSt::GrDown {
                     return false;
                 }
                 self.tables.remove_route(
                     self.sources[peer][&fam].clone(),
                     family(fam),
-                    packet::PathNlri { path_id: pid, nlri: prefix(fam, pfx) },
+                    packet::PathNlri {
+                        path_id: pid,
+                        nlri: prefix(fam, pfx),
+                    },
                     None,
                     self.ts,
                 );
                 true
             }
             Op::PeerDown { peer } => {
-                self.tables
-                    .unregister_peer(peer_addr(peer), &[Family::IPV4, Family::IPV6, Family::IPV4_VPN], &[]);
+                self.tables.unregister_peer(
+                    peer_addr(peer),
+                    &[Family::IPV4, Family::IPV6, Family::IPV4_VPN],
+                    &[],
+                );
                 self.sources[peer] = new_sources(peer);
                 self.st[peer] = PeerSt::Up;
                 true
@@ -327,8 +463,11 @@ impl World {
                     return false;
                 }
                 // GR negotiated for IPv4 + IPv6; the VPN family is not and is dropped at once
-                self.tables
-                    .unregister_peer(peer_addr(peer), &[Family::IPV4_VPN], &[Family::IPV4, Family::IPV6]);
+                self.tables.unregister_peer(
+                    peer_addr(peer),
+                    &[Family::IPV4_VPN],
+                    &[Family::IPV4, Family::IPV6],
+                );
                 self.st[peer] = PeerSt::GrDown;
                 true
             }
@@ -342,12 +481,14 @@ impl World {
             }
             Op::StalePurge { peer } => match self.st[peer] {
                 PeerSt::GrUpAwaitingEor => {
-                    self.tables.drop_stale_families(peer_addr(peer), &[Family::IPV4, Family::IPV6]);
+                    self.tables
+                        .drop_stale_families(peer_addr(peer), &[Family::IPV4, Family::IPV6]);
                     self.st[peer] = PeerSt::Up;
                     true
                 }
                 PeerSt::GrDown => {
-                    self.tables.drop_stale_families(peer_addr(peer), &[Family::IPV4, Family::IPV6]);
+                    self.tables
+                        .drop_stale_families(peer_addr(peer), &[Family::IPV4, Family::IPV6]);
                     self.sources[peer] = new_sources(peer);
                     self.st[peer] = PeerSt::Up;
                     true
@@ -365,7 +506,9 @@ impl World {
                 true
             }
             Op::ImportPolicy { idx, peer } => {
-                self.tables.import_policy.store(self.imp[idx % self.imp.len()].clone());
+                self.tables
+                    .import_policy
+                    .store(self.imp[idx % self.imp.len()].clone());
                 self.tables.soft_reset_in(peer_addr(peer));
                 true
             }
@@ -383,7 +526,10 @@ impl World {
                     if c.nexthops.is_empty() {
                         self.fib.remove(&key);
                     } else {
-                        self.fib.insert(key, c.nexthops.iter().map(|n| format!("{}", n.addr())).collect());
+                        self.fib.insert(
+                            key,
+                            c.nexthops.iter().map(|n| format!("{}", n.addr())).collect(),
+                        );
                     }
                 }
                 VerifRequest::RegisterNexthop(a) => *self.nht.entry(a).or_insert(0) += 1,
@@ -408,11 +554,21 @@ fn tie_key(p: &table::Path) -> (bool, u32, usize, u8, bool, bool, usize) {
         || find(Attribute::COMMUNITY)
             .and_then(|x| x.binary())
             .is_some_and(|b| b.chunks(4).any(|c| c == [0xff, 0xff, 0x00, 0x06]));
-    let lp = find(Attribute::LOCAL_PREF).and_then(|x| x.value()).unwrap_or(100);
-    let hops = find(Attribute::AS_PATH).map(|x| x.as_path_length()).unwrap_or(0);
+    let lp = find(Attribute::LOCAL_PREF)
+        .and_then(|x| x.value())
+        .unwrap_or(100);
+    let hops = find(Attribute::AS_PATH)
+        .map(|x| x.as_path_length())
+        .unwrap_or(0);
     let origin = find(Attribute::ORIGIN).and_then(|x| x.value()).unwrap_or(2) as u8;
-    let ebgp = matches!(p.source.role, table::PeerRole::Ebgp | table::PeerRole::RsClient);
-    let cl = find(Attribute::CLUSTER_LIST).and_then(|x| x.binary()).map(|b| b.len() / 4).unwrap_or(0);
+    let ebgp = matches!(
+        p.source.role,
+        table::PeerRole::Ebgp | table::PeerRole::RsClient
+    );
+    let cl = find(Attribute::CLUSTER_LIST)
+        .and_then(|x| x.binary())
+        .map(|b| b.len() / 4)
+        .unwrap_or(0);
     (llgr, lp, hops, origin, ebgp, p.source.is_stale(), cl)
 }
 
@@ -427,7 +583,9 @@ fn check(w: &World, judge_vrf: bool) -> Option<Check> {
     let mut nht_expect: BTreeMap<IpAddr, i64> = BTreeMap::new();
     for f in [Fam::V4, Fam::V6, Fam::Vpn4] {
         for ch in w.tables.collect_loc_rib_paths(family(f)) {
-            let Some(best) = ch.current_paths.first() else { continue };
+            let Some(best) = ch.current_paths.first() else {
+                continue;
+            };
             let k = tie_key(best);
             let mut nhs: BTreeSet<String> = BTreeSet::new();
             for p in ch.current_paths.iter().take_while(|p| tie_key(p) == k) {
@@ -435,7 +593,11 @@ fn check(w: &World, judge_vrf: bool) -> Option<Check> {
                     if w.unreachable.contains(&n.addr()) {
                         return Some(Check {
                             clause: "exclusion",
-                            detail: format!("{}: a path via unreachable next hop {} is eligible / tied with the best", ch.net, n.addr()),
+                            detail: format!(
+                                "{}: a path via unreachable next hop {} is eligible / tied with the best",
+                                ch.net,
+                                n.addr()
+                            ),
                         });
                     }
                     nhs.insert(format!("{}", n.addr()));
@@ -446,7 +608,11 @@ fn check(w: &World, judge_vrf: bool) -> Option<Check> {
                     if w.unreachable.contains(&n.addr()) {
                         return Some(Check {
                             clause: "exclusion",
-                            detail: format!("{}: a path via unreachable next hop {} is in the eligible list", ch.net, n.addr()),
+                            detail: format!(
+                                "{}: a path via unreachable next hop {} is in the eligible list",
+                                ch.net,
+                                n.addr()
+                            ),
                         });
                     }
                 }
@@ -462,7 +628,10 @@ fn check(w: &World, judge_vrf: bool) -> Option<Check> {
                             .iter()
                             .find(|a| a.code() == Attribute::EXTENDED_COMMUNITY)
                             .and_then(|a| a.binary())
-                            .is_some_and(|b| b.chunks_exact(8).any(|c| imports.contains(&<[u8; 8]>::try_from(c).unwrap())));
+                            .is_some_and(|b| {
+                                b.chunks_exact(8)
+                                    .any(|c| imports.contains(&<[u8; 8]>::try_from(c).unwrap()))
+                            });
                         if matches && !nhs.is_empty() {
                             expect.insert((*id, format!("{}", local)), nhs.clone());
                         }
@@ -489,18 +658,34 @@ fn check(w: &World, judge_vrf: bool) -> Option<Check> {
         match w.fib.get(k) {
             None => {
                 return Some(Check {
-                    clause: if k.0 == 0 { "fib/missing" } else { "fib-vrf/missing" },
-                    detail: format!("table {} {}: RIB expects next hops {:?}, replayed FIB has no route", k.0, k.1, v),
+                    clause: if k.0 == 0 {
+                        "fib/missing"
+                    } else {
+                        "fib-vrf/missing"
+                    },
+                    detail: format!(
+                        "table {} {}: RIB expects next hops {:?}, replayed FIB has no route",
+                        k.0, k.1, v
+                    ),
                 });
             }
             Some(g) if g != v => {
                 return Some(Check {
                     clause: if k.0 == 0 {
-                        if g.is_subset(v) { "fib/ecmp-member-missing" } else if v.is_subset(g) { "fib/ecmp-member-stale" } else { "fib/wrong-nexthops" }
+                        if g.is_subset(v) {
+                            "fib/ecmp-member-missing"
+                        } else if v.is_subset(g) {
+                            "fib/ecmp-member-stale"
+                        } else {
+                            "fib/wrong-nexthops"
+                        }
                     } else {
                         "fib-vrf/wrong-nexthops"
                     },
-                    detail: format!("table {} {}: RIB expects next hops {:?}, replayed FIB has {:?}", k.0, k.1, v, g),
+                    detail: format!(
+                        "table {} {}: RIB expects next hops {:?}, replayed FIB has {:?}",
+                        k.0, k.1, v, g
+                    ),
                 });
             }
             _ => {}
@@ -510,7 +695,10 @@ fn check(w: &World, judge_vrf: bool) -> Option<Check> {
         if k.0 == 0 && !expect.contains_key(k) {
             return Some(Check {
                 clause: "fib/stale-route",
-                detail: format!("table 0 {}: replayed FIB still has {:?} but the RIB has no eligible path", k.1, g),
+                detail: format!(
+                    "table 0 {}: replayed FIB still has {:?} but the RIB has no eligible path",
+                    k.1, g
+                ),
             });
         }
     }
@@ -521,8 +709,15 @@ fn check(w: &World, judge_vrf: bool) -> Option<Check> {
         let want = nht_expect.get(&a).copied().unwrap_or(0);
         if got != want {
             return Some(Check {
-                clause: if got > want { "nht/leaked-registration" } else { "nht/missing-registration" },
-                detail: format!("next hop {}: {} registrations outstanding, {} peer-learned paths use it", a, got, want),
+                clause: if got > want {
+                    "nht/leaked-registration"
+                } else {
+                    "nht/missing-registration"
+                },
+                detail: format!(
+                    "next hop {}: {} registrations outstanding, {} peer-learned paths use it",
+                    a, got, want
+                ),
             });
         }
     }
@@ -540,7 +735,14 @@ struct Outcome {
 
 fn run_history(shards: usize, with_vrfs: bool, ops: &[Op]) -> Outcome {
     let mut w = World::new(shards, with_vrfs);
-    let mut out = Outcome { failure: None, applied: BTreeMap::new(), requests: 0, checks: 0, ecmp_sets: 0, vrf_routes: 0 };
+    let mut out = Outcome {
+        failure: None,
+        applied: BTreeMap::new(),
+        requests: 0,
+        checks: 0,
+        ecmp_sets: 0,
+        vrf_routes: 0,
+    };
     for (i, op) in ops.iter().enumerate() {
         if !w.apply(op) {
             continue;
@@ -550,7 +752,11 @@ fn run_history(shards: usize, with_vrfs: bool, ops: &[Op]) -> Outcome {
         w.drain(&mut neg);
         out.checks += 1;
         if let Some(a) = neg {
-            out.failure = Some(("nht/negative".into(), format!("registrations for {} went negative", a), i));
+            out.failure = Some((
+                "nht/negative".into(),
+                format!("registrations for {} went negative", a),
+                i,
+            ));
             break;
         }
         if let Some(c) = check(&w, with_vrfs) {
@@ -589,7 +795,9 @@ fn run() {
             rep.count_n(&format!("op:{}", k), *v);
         }
         if out.ecmp_sets > 0 {
-            rep.nontrivial(fnv64(format!("{}{}{:?}", shards, with_vrfs, ops).as_bytes()));
+            rep.nontrivial(fnv64(
+                format!("{}{}{:?}", shards, with_vrfs, ops).as_bytes(),
+            ));
         }
         if let Some((clause, _detail, at)) = out.failure {
             // shrink: keep ops up to the failing one, then drop ops while the same clause fails
@@ -633,7 +841,10 @@ fn run() {
             rep.sample(Json::obj(vec![
                 ("shards", Json::Int(shards as i128)),
                 ("vrfs", Json::Bool(with_vrfs)),
-                ("ops", Json::strs(ops.iter().take(20).map(|o| format!("{:?}", o)))),
+                (
+                    "ops",
+                    Json::strs(ops.iter().take(20).map(|o| format!("{:?}", o))),
+                ),
                 ("requests_folded", Json::Int(out.requests as i128)),
                 ("checks", Json::Int(out.checks as i128)),
             ]));
@@ -694,7 +905,10 @@ fn check_converse(w: &World) -> Option<Check> {
         if g < *n {
             return Some(Check {
                 clause: "exclusion/reachable-path-excluded",
-                detail: format!("{}: {} unfiltered paths have a reachable next hop but only {} are eligible", net, n, g),
+                detail: format!(
+                    "{}: {} unfiltered paths have a reachable next hop but only {} are eligible",
+                    net, n, g
+                ),
             });
         }
     }
@@ -711,7 +925,14 @@ struct ConcOutcome {
     overlap: bool,
 }
 
-fn run_conc_history(shards: usize, with_vrfs: bool, pre: &[Op], plan: &[Vec<COp>], seed: u64, intensity: u32) -> ConcOutcome {
+fn run_conc_history(
+    shards: usize,
+    with_vrfs: bool,
+    pre: &[Op],
+    plan: &[Vec<COp>],
+    seed: u64,
+    intensity: u32,
+) -> ConcOutcome {
     use std::sync::Mutex;
     use std::sync::atomic::{AtomicU64, Ordering};
     let mut w = World::new(shards, with_vrfs);
@@ -721,7 +942,11 @@ fn run_conc_history(shards: usize, with_vrfs: bool, pre: &[Op], plan: &[Vec<COp>
     let tables = w.tables.clone();
     let attrs = w.attrs.clone();
     let imp = w.imp.clone();
-    let sources: Vec<_> = w.sources.iter().map(|m| Arc::new(Mutex::new(m.clone()))).collect();
+    let sources: Vec<_> = w
+        .sources
+        .iter()
+        .map(|m| Arc::new(Mutex::new(m.clone())))
+        .collect();
     let unreachable = Arc::new(Mutex::new(w.unreachable.clone()));
     let ts = Arc::new(AtomicU64::new(w.ts as u64 + 1));
     let applied = Arc::new(AtomicU64::new(0));
@@ -750,12 +975,25 @@ fn run_conc_history(shards: usize, with_vrfs: bool, pre: &[Op], plan: &[Vec<COp>
             for cop in ops {
                 let t = ts.fetch_add(1, Ordering::SeqCst) as u32;
                 match cop {
-                    COp::Session(p, Op::Announce { fam, pfx, pid, attr, nh, .. }) => {
+                    COp::Session(
+                        p,
+                        Op::Announce {
+                            fam,
+                            pfx,
+                            pid,
+                            attr,
+                            nh,
+                            ..
+                        },
+                    ) => {
                         let src = sources[p].lock().unwrap()[&fam].clone();
                         tables.insert_route(
                             src,
                             family(fam),
-                            packet::PathNlri { path_id: pid, nlri: prefix(fam, pfx) },
+                            packet::PathNlri {
+                                path_id: pid,
+                                nlri: prefix(fam, pfx),
+                            },
                             Some(nexthop(fam, nh)),
                             attrs[attr].clone(),
                             None,
@@ -764,10 +1002,23 @@ fn run_conc_history(shards: usize, with_vrfs: bool, pre: &[Op], plan: &[Vec<COp>
                     }
                     COp::Session(p, Op::Withdraw { fam, pfx, pid, .. }) => {
                         let src = sources[p].lock().unwrap()[&fam].clone();
-                        tables.remove_route(src, family(fam), packet::PathNlri { path_id: pid, nlri: prefix(fam, pfx) }, None, t);
+                        tables.remove_route(
+                            src,
+                            family(fam),
+                            packet::PathNlri {
+                                path_id: pid,
+                                nlri: prefix(fam, pfx),
+                            },
+                            None,
+                            t,
+                        );
                     }
                     COp::Session(p, Op::PeerDown { .. }) => {
-                        tables.unregister_peer(peer_addr(p), &[Family::IPV4, Family::IPV6, Family::IPV4_VPN], &[]);
+                        tables.unregister_peer(
+                            peer_addr(p),
+                            &[Family::IPV4, Family::IPV6, Family::IPV4_VPN],
+                            &[],
+                        );
                         *sources[p].lock().unwrap() = new_sources(p);
                     }
                     COp::Kernel(Op::NhReport { fam, nh, reachable }) => {
@@ -805,7 +1056,10 @@ fn run_conc_history(shards: usize, with_vrfs: bool, pre: &[Op], plan: &[Vec<COp>
     w.drain(&mut neg);
     let mut failure = None;
     if let Some(a) = neg {
-        failure = Some(("nht/negative".to_string(), format!("registrations for {} went negative", a)));
+        failure = Some((
+            "nht/negative".to_string(),
+            format!("registrations for {} went negative", a),
+        ));
     } else if let Some(c) = check(&w, with_vrfs) {
         failure = Some((c.clause.to_string(), c.detail));
     } else if let Some(c) = check_converse(&w) {
@@ -837,10 +1091,25 @@ fn gen_conc_plan(rng: &mut Rng) -> Vec<Vec<COp>> {
                     if k < 70 {
                         COp::Session(
                             p,
-                            Op::Announce { peer: p, fam, pfx: rng.usize(npfx), pid: rng.below(2) as u32, attr: rng.usize(5), nh: rng.usize(2) },
+                            Op::Announce {
+                                peer: p,
+                                fam,
+                                pfx: rng.usize(npfx),
+                                pid: rng.below(2) as u32,
+                                attr: rng.usize(5),
+                                nh: rng.usize(2),
+                            },
                         )
                     } else if k < 92 {
-                        COp::Session(p, Op::Withdraw { peer: p, fam, pfx: rng.usize(npfx), pid: rng.below(2) as u32 })
+                        COp::Session(
+                            p,
+                            Op::Withdraw {
+                                peer: p,
+                                fam,
+                                pfx: rng.usize(npfx),
+                                pid: rng.below(2) as u32,
+                            },
+                        )
                     } else {
                         COp::Session(p, Op::PeerDown { peer: p })
                     }
@@ -849,10 +1118,29 @@ fn gen_conc_plan(rng: &mut Rng) -> Vec<Vec<COp>> {
         );
     }
     let n = rng.range(1, 8) as usize;
-    plan.push((0..n).map(|_| COp::Kernel(Op::NhReport { fam: *rng.pick(&fams), nh: rng.usize(2), reachable: rng.chance(1, 2) })).collect());
+    plan.push(
+        (0..n)
+            .map(|_| {
+                COp::Kernel(Op::NhReport {
+                    fam: *rng.pick(&fams),
+                    nh: rng.usize(2),
+                    reachable: rng.chance(1, 2),
+                })
+            })
+            .collect(),
+    );
     if rng.chance(1, 2) {
         let n = rng.range(1, 4) as usize;
-        plan.push((0..n).map(|_| COp::Control(Op::ImportPolicy { idx: rng.usize(3), peer: rng.usize(N_PEERS) })).collect());
+        plan.push(
+            (0..n)
+                .map(|_| {
+                    COp::Control(Op::ImportPolicy {
+                        idx: rng.usize(3),
+                        peer: rng.usize(N_PEERS),
+                    })
+                })
+                .collect(),
+        );
     }
     plan
 }
@@ -872,7 +1160,12 @@ fn run_conc() {
         let npre = rng.range(0, 8) as usize;
         let pre: Vec<Op> = gen_ops(&mut rng, npre)
             .into_iter()
-            .filter(|o| matches!(o, Op::Announce { .. } | Op::Withdraw { .. } | Op::NhReport { .. }))
+            .filter(|o| {
+                matches!(
+                    o,
+                    Op::Announce { .. } | Op::Withdraw { .. } | Op::NhReport { .. }
+                )
+            })
             .collect();
         let plan = gen_conc_plan(&mut rng);
         let hseed = rng.next_u64();
@@ -889,14 +1182,23 @@ fn run_conc() {
             rep.count("conc:histories-with-overlapping-threads");
         }
         if out.sched > 2 {
-            rep.nontrivial(fnv64(format!("{}{}{:?}{:?}{}", shards, with_vrfs, pre, plan, hseed).as_bytes()));
+            rep.nontrivial(fnv64(
+                format!("{}{}{:?}{:?}{}", shards, with_vrfs, pre, plan, hseed).as_bytes(),
+            ));
         }
         if let Some((clause, detail)) = out.failure {
             // how often does the same plan fail?  (the interleaving is not replayable
             // deterministically; the rate tells how narrow the window is)
             let mut again = 0;
             for k in 0..10 {
-                let o = run_conc_history(shards, with_vrfs, &pre, &plan, hseed.wrapping_add(k), intensity.max(60));
+                let o = run_conc_history(
+                    shards,
+                    with_vrfs,
+                    &pre,
+                    &plan,
+                    hseed.wrapping_add(k),
+                    intensity.max(60),
+                );
                 if o.failure.as_ref().is_some_and(|f| f.0 == clause) {
                     again += 1;
                 }
@@ -904,7 +1206,11 @@ fn run_conc() {
             // does it also fail when the threads' operations are applied one thread after another?
             let seq_plan: Vec<Vec<COp>> = vec![plan.iter().flatten().cloned().collect()];
             let seq = run_conc_history(shards, with_vrfs, &pre, &seq_plan, hseed, 0);
-            let kind = if seq.failure.as_ref().is_some_and(|f| f.0 == clause) { "sequential-too" } else { "needs-overlap" };
+            let kind = if seq.failure.as_ref().is_some_and(|f| f.0 == clause) {
+                "sequential-too"
+            } else {
+                "needs-overlap"
+            };
             let sig = format!("C20/conc/{}/{}", clause, kind);
             rep.violation(
                 &sig,
@@ -928,7 +1234,13 @@ fn run_conc() {
         } else if rep.want_sample() && out.sched > 4 {
             rep.sample(Json::obj(vec![
                 ("shards", Json::Int(shards as i128)),
-                ("threads", Json::arr(plan.iter().map(|t| Json::strs(t.iter().take(6).map(|o| format!("{:?}", o)))))),
+                (
+                    "threads",
+                    Json::arr(
+                        plan.iter()
+                            .map(|t| Json::strs(t.iter().take(6).map(|o| format!("{:?}", o)))),
+                    ),
+                ),
                 ("sched_points_hit", Json::Int(out.hits as i128)),
                 ("thread_alternations", Json::Int(out.sched as i128)),
                 ("requests_folded", Json::Int(out.requests as i128)),
